@@ -3,7 +3,7 @@ import argparse, importlib, os, sys, traceback
 sys.path.insert(0, os.path.dirname(os.path.abspath(__file__)))
 from common import *
 
-MODULES = {"C06": "p_c06", "C20": "p_c20", "C03": "p_c03", "C01": "p_c01", "C05": "p_c05", "C11": "p_c11", "C15": "p_c15", "C07": "p_c07", "C10": "p_c10", "C04": "p_c04", "C02": "p_c02", "C08": "p_c08", "C09": "p_c09", "C16": "p_c16", "C13": "p_c13", "C18": "p_c18", "C19": "p_c19"}
+MODULES = {"C06": "p_c06", "C20": "p_c20", "C03": "p_c03", "C01": "p_c01", "C05": "p_c05", "C11": "p_c11", "C15": "p_c15", "C07": "p_c07", "C10": "p_c10", "C04": "p_c04", "C02": "p_c02", "C08": "p_c08", "C09": "p_c09", "C16": "p_c16", "C13": "p_c13", "C18": "p_c18", "C19": "p_c19", "C12": "p_c12", "C14": "p_c14", "C17": "p_c17"}
 
 
 def main():
